@@ -278,6 +278,8 @@ def run_case(case: dict, ctx: Ctx) -> None:
     elif sel == "partial" and load in ("line", "surf") and dim == 2:
         pass  # whole edge is the smallest exactly integrable region here; partial selections are covered by 'stray'
 
+    # selections are given in arbitrary order (nodes listed along an edge, shuffled ...), never assumed sorted
+    sel_nodes = rng.permutation(sel_nodes)
     # ---- density -----------------------------------------------------------------------------------
     ncomp = 1 if scalar else int(rng.integers(1, dof_n + 1))
     comps = list(rng.choice(dof_n, ncomp, replace=False))
@@ -467,16 +469,23 @@ def run_beam(case, ctx, rng):
     q = lambda x: c0 + c1 * x
     trans = [u for u in unknowns if u in ("x", "y", "z")]
     comp = str(rng.choice(trans))
+    sel = rng.permutation(used)
     if form == "const":
         val = c0
     elif form == "array":
-        val = q(X[used, 0])
+        val = q(X[sel, 0])
     else:
         val = lambda x, y, z: c0 + c1 * x
+    # the judged component is entered together with the other translations in ONE call, in random order, each with its
+    # own (different) constant intensity
+    others_c = {u: float(rng.uniform(-3, 3)) for u in trans if u != comp}
+    order = list(rng.permutation(trans))
     with ctx.monitored("no-exception", key + "/raised"):
         with quiet():
-            simu.add_lineLoad(used, [val], [comp])
+            simu.add_lineLoad(sel, [val if u == comp else others_c[u] for u in order], [str(u) for u in order])
             fvec = simu.Bc_vector_Neumann(_pt(simu)).reshape(mesh.Nn, dof_n)
+    for u, cu in others_c.items():
+        ctx.check("resultant-force", abs(fvec[:, unknowns.index(u)].sum() - cu * L) / (abs(cu) * L + 1e-300), 1e-9, key + "/force-other-component", comp=u, order=order)
     F_exact = c0 * L + c1 * L**2 / 2
     M_exact = c0 * L**2 / 2 + c1 * L**3 / 3  # ∫ x q dx  (moment arm about the origin)
     ci = unknowns.index(comp)
@@ -490,7 +499,7 @@ def run_beam(case, ctx, rng):
         mom -= float(fvec[:, unknowns.index("ry")].sum())       # w' = -ry
     if comp != "x":
         ctx.check("resultant-moment", abs(mom - M_exact) / (size * L), 1e-9, key + "/moment", comp=comp, form=form)
-    others = [i for i, u in enumerate(unknowns) if u != comp and not (comp == "y" and u == "rz") and not (comp == "z" and u == "ry")]
+    others = [i for i, u in enumerate(unknowns) if u not in trans and not (("y" in trans) and u == "rz") and not (("z" in trans) and u == "ry")]
     if others:
         ctx.check("unloaded-components-zero", float(np.abs(fvec[:, others]).max() / size), 1e-14, key + "/other-components")
     ctx.describe(f"beam-line/{bdim}D/{et}/{theory}/{form}", True, load="beam-line", et=et, theory=theory, comp=comp, form=form, L=L)
